@@ -99,6 +99,8 @@ func main() {
 	rx.SequenceSpace(r.Quick(), check)
 	rx.OverlapSpace(r.Quick(), check)
 	rx.NestedQuantSpace(check)
+	rx.PrefixAltSpace(check)
+	rx.CountSpace(check)
 	if !r.Quick() {
 		rx.DeepSpace(check)
 	}
